@@ -3,8 +3,15 @@ from . import _e1check
 PID, CORPUS = "C16", "pv.corpora.c16"
 
 
+def _extra(cfg):
+    from ..corpora import c16 as C
+
+    v, n = _e1check.rejection_clauses(C.rejections(), "c16")
+    return v, n, {"rejection_clauses_checked": n}
+
+
 def run(tier, seed):
-    return _e1check.run(PID, CORPUS, tier, seed)
+    return _e1check.run(PID, CORPUS, tier, seed, extra=_extra)
 
 
 def replay(path):
